@@ -13,7 +13,7 @@ let rd_fmax () = let x = rd_float () in if x = infinity then None else Some x
 let rd_band () = let a = rd_float () in let b = rd_fmax () in (a, b)
 let rd_raw () = let x = rd_float () in
   if Float.is_nan x then RawNaN else if x = infinity then RawInf else RawVal x
-let pstatus = function Converged ks -> "C " ^ plist pf ks | MaxIter ks -> "M " ^ plist pf ks
+let pstatus = function Converged ks -> "C " ^ plist pof ks | MaxIter ks -> "M " ^ plist pof ks
 let peak f e a1 b1 (fmin, fmax) =
   match peak_index fmin fmax f e with
   | None -> "-1 nan nan nan nan"
@@ -52,6 +52,6 @@ let handle cmd =
       let ps = rd_list (fun () -> let w = rd_float () in let d = rd_raw () in (w, depth_of d)) in
       pstatus (kinv ps)
   | "omega" ->
-      let k = rd_float () in let d = rd_raw () in pf (omega k (depth_of d))
+      let k = rd_float () in let d = rd_raw () in pof (omega k (depth_of d))
   | _ -> "ERR unknown"
 let () = main_loop handle
